@@ -199,3 +199,71 @@ func VK12Remove() {
 	}
 	_ = errors.New
 }
+
+// K12f: distinct write and read sets (backends = [A], readBackends = [A, B] or [B], B an older
+// replica that is only read): every read operation reflects the union of the READ replicas.
+func VK12ReadSet() {
+	vrt.Schedules(2)
+	ms, ss, names := vMk(2)
+	refs := []blob.Ref{blob.VerifSmallRef(7), blob.VerifSmallRef(8)}
+	var readIdx []int
+	if vrt.Bool() {
+		readIdx = []int{0, 1}
+	} else {
+		readIdx = []int{1}
+	}
+	var rs []blobserver.Storage
+	for _, i := range readIdx {
+		rs = append(rs, ss[i])
+	}
+	present := []bool{false, false}
+	for i := 0; i < 2; i++ {
+		for k := range refs {
+			if vrt.Choice(2) == 1 {
+				ms[i].Put(refs[k], []byte{1, 2, 3}[:k+1])
+				for _, j := range readIdx {
+					if j == i {
+						present[k] = true
+					}
+				}
+			}
+		}
+	}
+	sto := &replicaStorage{replicaPrefixes: names[:1], replicas: ss[:1], readPrefixes: names[:len(rs)], readReplicas: rs, minWritesForSuccess: 1}
+	ctx := context.Background()
+	seen := []int{0, 0}
+	err := sto.StatBlobs(ctx, refs, func(sb blob.SizedRef) error {
+		for k := range refs {
+			if sb.Ref == refs[k] {
+				seen[k]++
+				vrt.Assert(int(sb.Size) == k+1, "stat reports the true size (read set)")
+			}
+		}
+		return nil
+	})
+	vrt.Assert(err == nil, "stat succeeds (read set)")
+	ch := make(chan blob.SizedRef, 8)
+	eerr := sto.EnumerateBlobs(ctx, ch, "", 10)
+	vrt.Assert(eerr == nil, "enumerate succeeds (read set)")
+	listed := []int{0, 0}
+	for sb := range ch {
+		for k := range refs {
+			if sb.Ref == refs[k] {
+				listed[k]++
+			}
+		}
+	}
+	for k := range refs {
+		_, _, ferr := sto.Fetch(ctx, refs[k])
+		if present[k] {
+			vrt.Assert(ferr == nil, "a blob held by a read replica is fetched")
+			vrt.Assert(seen[k] == 1, "a blob held by a read replica is stat-ed exactly once")
+			vrt.Assert(listed[k] == 1, "a blob held by a read replica is enumerated exactly once")
+		} else {
+			vrt.Assert(ferr != nil, "a blob held by no read replica is not fetched")
+			vrt.Assert(seen[k] == 0, "a blob held by no read replica is not stat-ed")
+			vrt.Assert(listed[k] == 0, "a blob held by no read replica is not enumerated")
+		}
+	}
+	vrt.Cover("done")
+}
